@@ -36,15 +36,18 @@ const (
 // Scenario is the closed system: configuration, client scripts, controller.
 type Scenario struct {
 	Name        string     `json:"name"`
-	Callbacks   int        `json:"callbacks"`     // bit set of Cb*
-	RejectNth   int        `json:"reject_nth"`    // OnAcceptConnFunc rejects the n-th accepted connection (0 = none)
-	ReadTimeout string     `json:"read_timeout"`  // "long" (1h virtual) or "default" (library default 5ms)
-	Handler     string     `json:"handler"`       // "instant", "sleep10", "sleep120", "panic", "generic-error", "typed-error", "nil-nil"
-	Clients     [][]string `json:"clients"`       // per client: ops dial, send, send2, sendbad, recv, close, quiesce, sleep:<ms>, wait-ctl
-	Control     string     `json:"control"`       // "none", "shutdown", "cancel", "shutdown-cancelled", "shutdown-on-serve", "shutdown-before-serve", "shutdown+cancel"
-	ControlAt   int        `json:"control_at"`    // controller acts after this many completed client ops (all clients together)
-	Frames      []string   `json:"frames"`        // optional: catalogue frame name per client (default fc3)
-	PanicOnConn int        `json:"panic_on_conn"` // handler panics only on this connection id (0 = per Handler mode)
+	Callbacks   int        `json:"callbacks"`    // bit set of Cb*
+	RejectNth   int        `json:"reject_nth"`   // OnAcceptConnFunc rejects the n-th accepted connection (0 = none)
+	ReadTimeout string     `json:"read_timeout"` // "long" (1h virtual) or "default" (library default 5ms)
+	Handler     string     `json:"handler"`      // "instant", "sleep10", "sleep120", "panic", "generic-error", "typed-error", "nil-nil"
+	Clients     [][]string `json:"clients"`      // per client: ops dial, send, send2, sendbad, recv, close, quiesce, sleep:<ms>, wait-ctl
+	Control     string     `json:"control"`      // "none", "shutdown", "cancel", "shutdown-cancelled", "shutdown-on-serve", "shutdown-before-serve", "shutdown+cancel"
+	ControlAt   int        `json:"control_at"`   // controller acts after this many completed client ops (all clients together)
+	// ControlAtHandled, when > 0, additionally makes the controller wait until that many handler invocations have
+	// started (so that "n requests in flight when Shutdown starts" is the default schedule, not a deviation)
+	ControlAtHandled int      `json:"control_at_handled,omitempty"`
+	Frames           []string `json:"frames"`        // optional: catalogue frame name per client (default fc3)
+	PanicOnConn      int      `json:"panic_on_conn"` // handler panics only on this connection id (0 = per Handler mode)
 	// Expect, when set for client i, lists (hex) exactly the reply frames that client must have received by the end
 	// (used with the raw ops write:<hex>, drain, check:<n>, recvall:<k>).
 	Expect [][]string `json:"expect,omitempty"`
@@ -276,6 +279,7 @@ func (r *run) main() {
 		ci := r.info(id)
 		ci.handlerSt++
 		r.res.Handled++
+		vsched.Signal()
 		vsched.Point("handler.start")
 		switch sc.Handler {
 		case "sleep10":
@@ -385,7 +389,7 @@ func (r *run) control() {
 	case "shutdown-on-serve":
 		vsched.Block("ctl.served", func() bool { return r.served }, 0)
 	default:
-		vsched.Block("ctl.at", func() bool { return r.opsDone >= sc.ControlAt }, 0)
+		vsched.Block("ctl.at", func() bool { return r.opsDone >= sc.ControlAt && r.res.Handled >= sc.ControlAtHandled }, 0)
 	}
 	vsched.Point("ctl.act")
 	switch sc.Control {
@@ -394,7 +398,7 @@ func (r *run) control() {
 		// (connection stuck "being handled") still returns; nothing is demanded of that case
 		gctx, gcancel := context.WithCancel(context.Background())
 		vsched.GoNamed("gctx-timer", func() {
-			vtime.Sleep(2 * time.Second)
+			vtime.Sleep(2*time.Second + 3*time.Millisecond)
 			gcancel()
 			vsched.Signal()
 		}, false)
@@ -402,7 +406,7 @@ func (r *run) control() {
 	case "shutdown-twice", "shutdown-concurrent":
 		gctx, gcancel := context.WithCancel(context.Background())
 		vsched.GoNamed("gctx-timer", func() {
-			vtime.Sleep(2 * time.Second)
+			vtime.Sleep(2*time.Second + 3*time.Millisecond)
 			gcancel()
 			vsched.Signal()
 		}, false)
@@ -436,7 +440,7 @@ func (r *run) control() {
 	case "shutdown+cancel":
 		gctx, gcancel := context.WithCancel(context.Background())
 		vsched.GoNamed("gctx-timer", func() {
-			vtime.Sleep(2 * time.Second)
+			vtime.Sleep(2*time.Second + 3*time.Millisecond)
 			gcancel()
 			vsched.Signal()
 		}, false)
@@ -564,10 +568,11 @@ func (r *run) recv(cs *clientState) {
 	for {
 		if fr, rest := serverx.SplitReplies(cs.partial); len(fr) > 0 {
 			cs.got = append(cs.got, fr[0])
-			cs.partial = append([]byte(nil), rest...)
+			var keep []byte // the frames after the first stay buffered, in order, followed by the incomplete tail
 			for _, x := range fr[1:] {
-				cs.partial = append(append([]byte(nil), x...), cs.partial...)
+				keep = append(keep, x...)
 			}
+			cs.partial = append(keep, rest...)
 			return
 		}
 		cs.conn.SetReadDeadline(deadline)
